@@ -241,6 +241,16 @@ def write_table_hdf5(
                     )
 
     else:  # We need to append the tables!
+        # metadata.merge() treats a None value as "no information", but samples
+        # without a reference time cannot adopt the one stored in the file:
+        for key, val in existing_header["meta"].items():
+            if val is not None and key in table.meta and table.meta[key] is None:
+                raise metadata.MergeConflictError(
+                    "Cannot append table to existing file because "
+                    f"the existing file table has metadata '{key}' set, but "
+                    "this table object does not."
+                )
+
         try:
             # FIXME: do something with the merged metadata!
             metadata.merge(
